@@ -2,7 +2,7 @@
 # tools/selftest_parallel.sh: runs bin/selftest over the whole corpus in parallel jobs, each on its own scratch clone of /repo (FL_REPO) with its own
 # cargo target directory (FL_CACHE_TAG) and output root (FL_OUT); /repo and /verif/evidence are not touched.  Authoring helper, never a registered check.
 W=/tmp/flsel; rm -rf $W; mkdir -p $W
-JOBS=("c0" "c1" "c2 pa re wi" "C0" "C1 C2" "RFa RFb RFc RFd RFe RFf RFg" "RFh RFi RFj RFk RFl RFm RFn RFo" "RFp RFq RFr RFs RFt RFu RFv RFw RFx RFy RFz" "RG")
+JOBS=("c0" "c1" "c2 pa re wi sp mu fl" "C0" "C1 C2" "RFa RFb RFc RFd RFe RFf RFg" "RFh RFi RFj RFk RFl RFm RFn RFo" "RFp RFq RFr RFs RFt RFu RFv RFw RFx RFy RFz" "RG")
 i=0
 for J in "${JOBS[@]}"; do
   i=$((i+1))
